@@ -5,12 +5,21 @@ From Gots Require Import Base.Prelude Base.NRange Exec.ExecBase Model.SegDesc.
 Import SegDesc.
 
 Definition zb (z : Z) : bool := negb (Z.eqb z 0).
+(* the VSS signal id on the wire: k < 900000 stands for the ADI UPID text "BLACKOUT:<k>" (id = the text after the prefix,
+   distinct per k); 900000 + j for the unusual texts of goexec/seg.go vssText: "BLACKOUT" (id "BLACKOUT"),
+   "SIGNAL:BLACKOUT", "BLACKOUT:" (id ""), "xBLACKOUT:7" - ids of their own -, "BLACKOUT:BLACKOUT" (TrimPrefix gives
+   "BLACKOUT": the SAME id as 900000), and two texts without "BLACKOUT" (no signal id: ErrVSSSignalIdNotFound),
+   as strings.Contains / strings.TrimPrefix of StreamSwitchSignalId give them (Printers.stream_switch_signal_id). *)
+Definition vss_code (s : N) : option N :=
+  if s =? 900004 then Some 900000
+  else if (s =? 900005) || (s =? 900006) then None
+  else Some s.
 Definition desc_of_val (v : val) : option desc :=
   match v with
   | VL [VI i; VI t; VI e; VI hp; VI p; VI sn; VI se; VI hs; VI bn; VI be; VL k] =>
     match k with
     | [] => Some (mk (zN i) (zN t) (zN e) (zb hp) (zN p) (zN sn) (zN se) (zb hs) (zN bn) (zN be) None)
-    | [VI s] => Some (mk (zN i) (zN t) (zN e) (zb hp) (zN p) (zN sn) (zN se) (zb hs) (zN bn) (zN be) (Some (zN s)))
+    | [VI s] => Some (mk (zN i) (zN t) (zN e) (zb hp) (zN p) (zN sn) (zN se) (zb hs) (zN bn) (zN be) (vss_code (zN s)))
     | _ => None
     end
   | _ => None
@@ -58,6 +67,14 @@ Definition ops : list op := [
      UPID, components, restriction flags, tier, neighbouring descriptors); the relation does not see them *)
   ("seg.close1n", fun a => match a with
      | [vd; vo; VI _; VI _] =>
+       match descs_of_vals [vd; vo] with
+       | Some [d; o] => VL [vbool (CanClose d o); vbool (IsIn d); vbool (IsOut d); vbool (IsIn o); vbool (IsOut o)]
+       | _ => vbad end
+     | _ => vbad end);
+  (* descriptors that are not attached to a signal (real side); the relation reads the signal only in the PTS rule, where the
+     real code panics and the oracle sets the case aside *)
+  ("seg.closedet", fun a => match a with
+     | [vd; vo; VI _] =>
        match descs_of_vals [vd; vo] with
        | Some [d; o] => VL [vbool (CanClose d o); vbool (IsIn d); vbool (IsOut d); vbool (IsIn o); vbool (IsOut o)]
        | _ => vbad end
